@@ -46,7 +46,7 @@ class Frame:
 
 
 class Engine(ExprMixin, StmtMixin, CallMixin):
-    FEAS_TIMEOUT_MS = 3000
+    FEAS_TIMEOUT_MS = 1000
     CONST_UNROLL_LIMIT = 4096
 
     def __init__(self, tu, registry, prune=True):
@@ -103,9 +103,10 @@ class Engine(ExprMixin, StmtMixin, CallMixin):
         key = tuple(p.get_id() for p in self.st.pc)
         if key in self.feas_cache:
             return self.feas_cache[key]
+        # pruning only needs a subset of the path condition to be contradictory: the small conjuncts decide it cheaply
         s = z3.Solver()
         s.set('timeout', self.FEAS_TIMEOUT_MS)
-        s.add(*self.st.pc)
+        s.add(*[p for p in self.st.pc if _small(p, 150)])
         r = s.check() != z3.unsat
         self.feas_cache[key] = r
         if not r:
